@@ -327,6 +327,27 @@ func shuffledBlocks[S, D signal.SignalTypes](rng *rand.Rand, conv func(*signal.B
 	}
 }
 
+// repeatDistinct converts the same block `reps` times and reports every DISTINCT (input, output) pair it ever saw
+// (a conversion is a function of the sample and the two formats: if another goroutine's concurrent conversion, or an
+// earlier call, can change the result, more than one output shows up for an input).
+func repeatDistinct[S, D signal.SignalTypes](conv func(*signal.Buffer[S], *signal.Buffer[D]) int, in []S, reps int, emit func(x S, y D)) {
+	type pair struct {
+		x S
+		y D
+	}
+	seen := map[pair]struct{}{}
+	for r := 0; r < reps; r++ {
+		ys := convertSlice(conv, in)
+		for i := range in {
+			p := pair{in[i], ys[i]}
+			if _, ok := seen[p]; !ok {
+				seen[p] = struct{}{}
+				emit(in[i], ys[i])
+			}
+		}
+	}
+}
+
 // intValues: the source values a quick sweep visits, in increasing order (exhaustive for 8-bit types).
 func intValues[T constraints.Integer](rng *rand.Rand, nrand int) []T {
 	bits := bitsOf[T]()
@@ -422,6 +443,13 @@ func quantSweep[S, D constraints.Integer](w *numWriter, rng *rand.Rand, fn, sty,
 func quantShuffled[S, D constraints.Integer](w *numWriter, rng *rand.Rand, fn, sty, dty string, conv func(*signal.Buffer[S], *signal.Buffer[D]) int, xs []S) {
 	w.start(&NEvent{Fam: "quant", Fn: fn, STy: sty, DTy: dty, Ss: b2i(isSigned[S]()), Sd: bitsOf[S](), Ds: b2i(isSigned[D]()), Dd: bitsOf[D](), Uo: 1})
 	shuffledBlocks(rng, conv, xs, 300, func(x S, y D) { w.emit(&NEvent{Op: "P", X: numOfInt(x), Y: numOfInt(y)}) })
+	// the instantiations run in parallel goroutines: a block of 300 samples converted 150 times while the other
+	// formats of the same source type are being converted next door
+	blk := make([]S, 300)
+	for i := range blk {
+		blk[i] = xs[rng.Intn(len(xs))]
+	}
+	repeatDistinct(conv, blk, 150, func(x S, y D) { w.emit(&NEvent{Op: "P", X: numOfInt(x), Y: numOfInt(y)}) })
 }
 
 // ordered image of an integer value in uint64 (order preserving for one type)
